@@ -397,6 +397,57 @@ def strop_pipeline() -> typing.List[str]:
     return steps
 
 
+def cache_key_facts() -> typing.Tuple[typing.List[str], bool, bool]:
+    """What takes part in the lru_cache key of TokenEncoder.strop: the parameters of the decorated function, in order
+    (functools.lru_cache keys on the call's positional and keyword arguments; Language.filter_id passes token and type
+    positionally); whether `self` is compared by identity (neither TokenEncoder nor a base class defines __eq__/__hash__);
+    whether an encoder's configuration is frozen after __init__ (no method other than __init__ stores an attribute on self)."""
+    cls = _token_encoder_class()
+    methods = {f.name: f for f in cls.body if isinstance(f, ast.FunctionDef)}
+    fn = methods.get('strop')
+    if fn is None:
+        raise FailClosed('TokenEncoder.strop not found')
+    a = fn.args
+    if a.vararg or a.kwarg or a.kwonlyargs:
+        raise FailClosed('TokenEncoder.strop: *args/**kwargs/keyword-only parameters in a memoised signature are not modelled')
+    params = [x.arg for x in list(a.posonlyargs) + list(a.args)]
+    # roles: the first parameter is the receiver; the one the first pipeline step reads is the token; the one that is
+    # lower-cased is the type
+    body = _strip_doc(fn.body)
+    ty_param = body[0].value.func.value.id if (body and isinstance(body[0], ast.Assign) and _is_call_attr(body[0].value, 'lower', 0)
+                                               and isinstance(body[0].value.func.value, ast.Name)) else None
+    key = []
+    for i, nm in enumerate(params):
+        if i == 0:
+            key.append('KSelf')
+        elif nm == ty_param:
+            key.append('KType')
+        else:
+            key.append('KToken')
+    by_identity = not cls.bases or all(_is_name(b, 'object') for b in cls.bases)
+    by_identity = by_identity and not any(n in methods for n in ('__eq__', '__hash__'))
+    by_identity = by_identity and not any(isinstance(st, ast.Assign) and any(_is_name(t, n) for t in st.targets for n in ('__eq__', '__hash__'))
+                                          for st in cls.body)
+    by_identity = by_identity and not cls.decorator_list      # e.g. @dataclass would synthesise __eq__
+    frozen = True
+    for name, m in methods.items():
+        if name == '__init__':
+            continue
+        for n in ast.walk(m):
+            tgts = []
+            if isinstance(n, ast.Assign):
+                tgts = n.targets
+            elif isinstance(n, (ast.AugAssign, ast.AnnAssign)):
+                tgts = [n.target]
+            elif isinstance(n, ast.Call) and _is_name(n.func, 'setattr'):
+                frozen = False
+            for t in tgts:
+                for sub in ast.walk(t):
+                    if isinstance(sub, ast.Attribute) and isinstance(sub.value, ast.Name) and sub.value.id in ('self', 'cls'):
+                        frozen = False
+    return key, by_identity, frozen
+
+
 def lru_maxsize() -> typing.Optional[int]:
     """functools.lru_cache(maxsize=N) on TokenEncoder.strop, read with ast; None when strop is not cached"""
     tree = gen.parse_repo('src/nunavut/lang/_common.py')
@@ -436,6 +487,13 @@ def build_text(doc: dict) -> str:
     parts.append('(* keyword.kwlist of the interpreter that runs nunavut *)\n' + _str_list('py_kwlist', kw))
     ms = lru_maxsize()
     HANDLER_DEFS.clear()
+    key, by_identity, frozen = cache_key_facts()
+    parts.append('(* the lru_cache key of TokenEncoder.strop: the parameters of the decorated signature, in order; is `self` compared by\n'
+                 '   identity; is the configuration of an encoder frozen after __init__ (all read with ast) *)\n'
+                 'Definition strop_cache_key : list kparam := [%s].\n'
+                 'Definition strop_self_by_identity : bool := %s.\n'
+                 'Definition encoder_attrs_frozen : bool := %s.\n'
+                 % ('; '.join(key), 'true' if by_identity else 'false', 'true' if frozen else 'false'))
     steps = strop_pipeline()
     reverify = any(st.startswith('PReverify') for st in steps)
     if reverify != strop_reverifies():
